@@ -5,7 +5,9 @@
 2. int(x) for a user object whose __int__ returns a symbolic int (stdlib ipaddress);
 3. CrossHair's short-circuiting (replacing a call by an uninterpreted value) is disabled;
 4. importlib.import_module realises its argument;
-5. counters: symbolic paths (StateSpace instances), solver check() calls and their time.
+5. ordering a symbolic str against a non-str returns NotImplemented (real str semantics);
+6. a TypeError "expected string or bytes-like object, got <non-proxy>" is the program's, not a proxy intolerance;
+7. counters: symbolic paths (StateSpace instances), solver check() calls and their time.
 """
 import importlib
 import time
@@ -72,6 +74,36 @@ def _import_module(name, package=None):
 
 
 _core._PATCH_REGISTRATIONS[importlib.import_module] = _import_module
+
+# 6. ordering a symbolic str against a non-str returns NotImplemented (as str does), so that the reflected
+#    method of the other operand is consulted; CrossHair raises TypeError directly
+_orig_str_cmp = _bl.AnySymbolicStr._cmp_op
+
+
+def _str_cmp_op(self, other, op):
+    if not isinstance(other, str):
+        return NotImplemented
+    return _orig_str_cmp(self, other, op)
+
+
+_bl.AnySymbolicStr._cmp_op = _str_cmp_op
+
+# 7. "expected string or bytes-like object" is treated by CrossHair as its own proxy intolerance (path dropped,
+#    verdict degraded to "Not confirmed"); keep that only when the offending object really is a CrossHair proxy,
+#    otherwise it is the program's own TypeError and must be reported
+_orig_spi = _core.suspected_proxy_intolerance_exception
+
+
+def _spi(exc_value):
+    if not _orig_spi(exc_value):
+        return False
+    text = str(exc_value)
+    if "expected string or bytes-like object" in text and not ("Symbolic" in text or "Lazy" in text or "crosshair" in text):
+        return False
+    return True
+
+
+_core.suspected_proxy_intolerance_exception = _spi
 
 # ---------------------------------------------------------------- counters
 STATS = {"paths": 0, "checks": 0, "solver_s": 0.0}
